@@ -44,6 +44,7 @@ def run(ctx):
     ctx.rule('CONSTRUCT', 'flip contexts are constructed only by the validated builders')
     ctx.rule('TXN', 'flip entry points and kernel layers are clean on failure')
     ctx.rule('HASHCANON', 'every simplex hash in the flip code is computed over the u64-sorted key sequence')
+    ctx.rule('NEWORIENT', 'a new cell found negatively oriented is reordered before it is inserted')
     ctx.rule('DIMGATE', 'each flip context builder refuses dimensions below the size of its move')
     ctx.rule('POSTFLIP', 'a flip layer reports success only behind neighbour wiring, removal of the old cells and the '
                          'coherent-orientation normalisation')
@@ -54,6 +55,7 @@ def run(ctx):
         lv = gate.Leaves(prog)
         _postflip(ctx, cfg, prog, lv)
         _dimgate(ctx, cfg, prog)
+        _newcellorient(ctx, cfg, prog, ctx.mod(cfg))
         kb = ctx.anchor(cfg, KERNEL)
         if kb is None:
             continue
@@ -344,6 +346,71 @@ def _dimgate(ctx, cfg, prog):
                if best < need else '; crate calls at lines %s are reachable without passing the gate' % leaks[:3]),
                site=site)
     ctx.floor('flip context builders with a dimension gate', 4, n, cfg)
+
+
+def _newcellorient(ctx, cfg, prog, mod):
+    """NEWORIENT: the coherent-orientation pass after a flip keeps the *first stored cell* as its reference; when the
+    flip removes that cell, a new cell becomes the reference, so each new cell must be positively ordered by itself.
+    In the kernel: there is a comparison `sign < 0` on a value derived from the orientation predicate of the new
+    cell, and from its negative edge the per-cell loop cannot continue (nor the function go on) without passing a
+    `swap` of the cell's vertices."""
+    import valueflow
+    import loops
+    b = prog.bodies.get(KERNEL)
+    if b is None:
+        return
+    al = mod.aliases(KERNEL)
+    site = '%s:%d' % (b.file, b.line)
+    preds = [bb for bb, t in b.calls() if (t.callee or t.resolved or '').rsplit('::', 1)[-1] in ('orientation', 'robust_orientation')]
+    swaps = {bb for bb, t in b.calls() if (t.callee or t.resolved or '').rsplit('::', 1)[-1] == 'swap'}
+    uses = flow._collect_uses(b)
+    neg_targets = []
+    for blk in b.blocks:
+        if blk.cleanup:
+            continue
+        for s_ in blk.stmts:
+            if s_.kind != 'A' or s_.rv.k != 'bin' or s_.rv.raw.get('op') not in ('Lt', 'Gt', 'Le', 'Ge') or not s_.place.is_local():
+                continue
+            ops = s_.rv.ops
+            zero = [o for o in ops if o.int_value() == 0]
+            var = [o for o in ops if o.place is not None]
+            if len(zero) != 1 or len(var) != 1:
+                continue
+            leaves = valueflow.sources(b, al, var[0].place.local)
+            if not any(x[0] == 'call' and x[2] in preds for x in leaves):
+                continue
+            op = s_.rv.raw['op']
+            var_first = ops[0].place is not None
+            # edge on which the sign is negative
+            neg_when_true = (op == 'Lt' and var_first) or (op == 'Gt' and not var_first)
+            neg_when_false = (op == 'Ge' and var_first) or (op == 'Le' and not var_first)
+            for (sbb, _, snode, how) in uses.get(s_.place.local, []):
+                if how != 'switch':
+                    continue
+                listed = {v: tg for v, tg in snode.values}
+                false_t = listed.get(0)
+                true_t = snode.otherwise if 0 in listed else None
+                tgt = true_t if neg_when_true else false_t if neg_when_false else None
+                if tgt is not None:
+                    neg_targets.append(tgt)
+    if not preds:
+        ctx.ob('NEWORIENT', KERNEL, cfg, False, 'the kernel no longer evaluates the orientation of the new cells', site=site)
+        return
+    if not neg_targets:
+        ctx.ob('NEWORIENT', KERNEL, cfg, False,
+               'no branch on a negative orientation sign of a new cell: a negatively ordered new cell is inserted as it is; when the '
+               'flip removes the first stored cell it becomes the reference of the coherent-orientation pass and the whole '
+               'triangulation turns negative (Level 3 fails after a legal, convex flip)', site=site)
+        return
+    # from the negative edge, everything but the swap is cut: nothing of the function may remain reachable
+    inserts = [bb for bb, t in b.calls() if (t.resolved or t.callee) == INSERT_CELL]
+    reach = flow.reach_edges(b, neg_targets, avoid_blocks=swaps)
+    bad = [x for x in inserts if x in reach]
+    ok = bool(swaps) and not bad
+    ctx.ob('NEWORIENT', KERNEL, cfg, ok,
+           'negative-orientation edges: %d; vertex swaps: %d; %s' % (len(neg_targets), len(swaps),
+               'the cell insertion is reachable from a negative edge only through a swap' if ok else
+               'the cell insertion is reachable from a negative edge without a swap of the new cell\'s vertices'), site=site)
 
 
 def _hashcanon(ctx, cfg, prog, mod):
